@@ -658,8 +658,21 @@ def _lines(ctx):
         for n in body
         if isinstance(n, ast.Assign) and norm(n.value) == "state['acc']" and isinstance(n.targets[0], ast.Name)
     ]
-    prev_name = prev[0].targets[0].id if prev else None
-    order_ok = bool(prev) and acc_updates and prev[0].lineno < acc_updates[0].lineno < ck[0].lineno
+    # a read of the counter into a local: before the update it is the start line, after it the end line
+    n_assigned = {}
+    for n in iter_own(one.node):
+        if isinstance(n, (ast.Assign, ast.AugAssign, ast.AnnAssign, ast.For, ast.NamedExpr)):
+            for t in n.targets if isinstance(n, ast.Assign) else [n.target]:
+                for x in ast.walk(t):
+                    if isinstance(x, ast.Name) and isinstance(x.ctx, ast.Store):
+                        n_assigned[x.id] = n_assigned.get(x.id, 0) + 1
+    upd_line = acc_updates[0].lineno if acc_updates else None
+    once = [n for n in prev if n_assigned.get(n.targets[0].id) == 1 and len(n.targets) == 1]
+    before = [n for n in once if upd_line is not None and n.lineno < upd_line]
+    after = [n for n in once if upd_line is not None and upd_line < n.lineno < ck[0].lineno]
+    prev_name = before[0].targets[0].id if before else None
+    end_names = {"state['acc']"} | {n.targets[0].id for n in after}
+    order_ok = bool(before) and acc_updates and before[0].lineno < acc_updates[0].lineno < ck[0].lineno
     ctx.ob(
         "C09.lines",
         one,
@@ -669,7 +682,7 @@ def _lines(ctx):
         line=one.node.lineno,
     )
     for field, want in (("line_no_start", prev_name), ("line_no_end", "state['acc']"), ("value", "statement")):
-        ok = kw.get(field) == want
+        ok = kw.get(field) == want or (field == "line_no_end" and kw.get(field) in end_names)
         ctx.ob(
             "C09.lines",
             one,
